@@ -168,13 +168,19 @@ def hookable(fd):
                        "mapAny", "mapOf", "tupleOf", "tuplePos") and "struct" not in json.dumps(fd)
 
 
-def install_hook(cls, hooks, ctx):
+def install_hook(cls, hooks, ctx, need=None):
+    """hooks: [[f, v]] - the hook raises when field f holds v; need: [[f1, f2, ..]] - it raises unless, for every
+    group, at least one field of the group holds a value (set and not None)"""
     loaded = [(f, dump.load_value(v, ctx)) for f, v in hooks]
+    need = need or []
 
     def __validate__(self):
         for f, v in loaded:
             if f in self.__dict__ and self.__dict__[f] == v:
                 raise ValueError(f"{f}: rejected by __validate__")
+        for group in need:
+            if all(self.__dict__.get(f) is None for f in group):
+                raise ValueError(f"{group[0]}: rejected by __validate__ (one of {group} is needed)")
     cls.__validate__ = __validate__
 
 
@@ -352,9 +358,31 @@ def gen_cases_ext(rng, tier, n_classes, immutable=False):
                 nm, fd = rng.choice(wrapped)
                 kind, cfd = wrapper_kind(fd), coll_option(fd)
                 q = rng.random()
-                if q < 0.25:
+                ed0 = elem_decl(cfd) if kind in ("list", "deque") else None
+                if ed0 and ed0.get("k") in ("enumCls", "float", "number") and isinstance(cur.get(nm), dict) and rng.random() < 0.5:
+                    # a kept wrapper that receives a value its item field CONVERTS (an enum member's name, an int for a
+                    # Float) keeps the raw argument, while the instance stores the converted one; handing the wrapper
+                    # back to the field must validate (convert) its content again
+                    raw = rng.choice(ed0["names"]) if ed0["k"] == "enumCls" else rng.choice([1, 2, 3])
                     ops.append({"op": "take", "f": nm})
                     taken.append((nm, fd))
+                    ops.append({"op": "callRef", "i": len(taken) - 1, "f": nm, "m": rng.choice(["append", "insert", "extend"]),
+                                "args": []})
+                    ops[-1]["args"] = {"append": [raw], "insert": [0, raw], "extend": [{"l": [raw]}]}[ops[-1]["m"]]
+                    ops.append({"op": "assignRef", "f": nm, "i": len(taken) - 1})
+                    continue
+                if q < 0.22:
+                    ops.append({"op": "take", "f": nm})
+                    taken.append((nm, fd))
+                elif q < 0.3 and taken:
+                    # hand a kept wrapper (possibly mutated meanwhile through its own methods) back to a field
+                    i = rng.randrange(len(taken))
+                    target = taken[i][0] if rng.random() < 0.8 else nm
+                    if rng.random() < 0.6:
+                        call = gen_ext_call(rng, vg, tbl, wrapper_kind(taken[i][1]), coll_option(taken[i][1]), cur.get(taken[i][0]))
+                        if call:
+                            ops.append({"op": "callRef", "i": i, "f": taken[i][0], "m": call[0], "args": call[1], **call[2]})
+                    ops.append({"op": "assignRef", "f": target, "i": i})
                 elif q < 0.55 and taken:
                     i = rng.randrange(len(taken) + (1 if rng.random() < 0.05 else 0))
                     rnm, rfd = taken[min(i, len(taken) - 1)]
@@ -381,6 +409,16 @@ def gen_cases_ext(rng, tier, n_classes, immutable=False):
             if op is not None:
                 ops.append(op)
         ext = dict(case, ops=ops, ext=True)
+        # a hook of the second family: "one of these fields must hold a value", over fields the start instance holds,
+        # with operations that try to clear them (None assignment, deletion)
+        held = [k for k, v in case["kw"] if v is not None and k in cur_names(fields)]
+        if held and not case["cls"].get("immutable") and rng.random() < 0.35:
+            group = sorted(rng.sample(held, min(len(held), rng.randint(1, 2))))
+            ext["hookNeed"] = [group]
+            for g in group:
+                for _ in range(rng.randint(1, 2)):
+                    clear = {"op": "setattr", "f": g, "v": None} if rng.random() < 0.6 else {"op": "delitem", "f": g}
+                    ops.insert(rng.randrange(len(ops) + 1), clear)
         ext["re"] = gen.re_table(case["cls"], case["kw"], ops)
         out.append(ext)
     return out
@@ -435,16 +473,20 @@ def do_op(x, op, ctx, refs=None):
             raise AttributeError("field is not set")     # canonical "no value to operate on"
         invoke(outer[k], op, ctx)
     elif name == "take":
-        if op["f"] not in x.__dict__:
-            raise AttributeError("field is not set")
-        w = getattr(x, op["f"])
+        # a take that finds no wrapper still occupies its position (None), so that later positions do not shift
+        w = getattr(x, op["f"]) if op["f"] in x.__dict__ else None
         if not (isinstance(w, WRAPPER_TYPES) and hasattr(w, "_field_definition")):
+            refs.append(None)
             raise AttributeError("the field holds no wrapper")
         refs.append(w)
     elif name == "callRef":
-        if op["i"] >= len(refs):
+        if op["i"] >= len(refs) or refs[op["i"]] is None:
             raise AttributeError("no such reference")
         invoke(refs[op["i"]], op, ctx)
+    elif name == "assignRef":
+        if op["i"] >= len(refs) or refs[op["i"]] is None:
+            raise AttributeError("no such reference")
+        setattr(x, op["f"], refs[op["i"]])
     else:
         raise ValueError(name)
 
@@ -461,8 +503,8 @@ def run_impl(case):
     if back != want:
         return {"abstraction_mismatch": {"dumped": back, "declared": want}}
     cls_actual = C.fix_accepts(dump.dump_class(cls, ctx))
-    if case.get("hook"):
-        install_hook(cls, case["hook"], ctx)
+    if case.get("hook") or case.get("hookNeed"):
+        install_hook(cls, case.get("hook", []), ctx, case.get("hookNeed"))
     try:
         kw = {k: dump.load_value(v, ctx) for k, v in case["kw"]}
         x = cls(**kw)
@@ -473,7 +515,7 @@ def run_impl(case):
            "start": snap(), "steps": []}
     res["ops_actual"] = []
     refs = []
-    snap_refs = lambda: [C.rename_inline(dump.dump_value(raw_payload(w), ctx), ctx) for w in refs]
+    snap_refs = lambda: [None if w is None else C.rename_inline(dump.dump_value(raw_payload(w), ctx), ctx) for w in refs]
     for op in case["ops"]:
         try:
             # build arguments first so that an unbuildable argument is not mistaken for a rejection;
@@ -506,6 +548,8 @@ def line(case, impl):
          "ops": case["ops"], "re": case.get("re", []), "hook": case.get("hook", [])}
     if "nestedBound" in case:
         l["nestedBound"] = case["nestedBound"]
+    if case.get("hookNeed"):
+        l["hookNeed"] = case["hookNeed"]
     if "steps" in impl:
         # ops whose arguments could not even be built are dropped on both sides
         keep = [i for i, s in enumerate(impl["steps"]) if s["out"] != "unbuildable-arg"]
@@ -529,6 +573,8 @@ def op_site(case, op):
         return "setattr:" + (fd["k"] if fd else "non-field")
     if op["op"] == "take":
         return "take"
+    if op["op"] == "assignRef":
+        return "assign-ref:" + (fd["k"] if fd else "non-field")
     if op["op"] == "callRef":
         return f"ref-{wrapper_kind(fd) if fd else '?'}.{op['m']}"
     return "delitem"
